@@ -162,3 +162,32 @@ def gen_v1(repo, out):
 
 
 EXTRA_GENERATORS.append(gen_v1)
+
+
+# ---------------------------------------------------------------- vcs command templates
+def gen_vcs(repo, out):
+    mod = parse_file(repo, "vcs.py")
+    node = top_assign(mod, "VCS_SUBCOMMANDS_BY_NAME")
+    if not isinstance(node, ast.Dict):
+        die("VCS_SUBCOMMANDS_BY_NAME: expected a dict literal")
+    names = []
+    for k, v in zip(node.keys, node.values):
+        name = cstr(k)
+        names.append(name)
+        emit_pairs(out, "VCS_SUBCOMMANDS_%s" % name.upper(), dict_items(v), "vcs.VCS_SUBCOMMANDS_BY_NAME[%r]" % name)
+    emit_strs(out, "VCS_NAMES", names, "order of vcs.VCS_SUBCOMMANDS_BY_NAME (get_vcs_api tries them in this order)")
+    # VCSAPI.__call__: argv = [part.format(**kwargs) for part in shlex.split(cmd_tmpl)]  (split first, then format)
+    fn = top_func(mod, "__call__", cls="VCSAPI")
+    src = ast.unparse(fn)
+    split_then_format = "shlex.split(cmd_tmpl)" in src and "part.format(**kwargs)" in src
+    format_then_split = "shlex.split(cmd_str)" in src
+    if split_then_format == format_then_split:
+        die("VCSAPI.__call__: cannot tell whether the template is split before or after formatting")
+    out.write("(* VCSAPI.__call__ splits the command template with shlex before substituting the values *)\n"
+              "Definition VCS_SPLIT_BEFORE_FORMAT : bool := %s.\n\n" % ("true" if split_then_format else "false"))
+    cfg = parse_file(repo, "config.py")
+    emit_str(out, "DEFAULT_COMMIT_MESSAGE", cstr(top_assign(cfg, "DEFAULT_COMMIT_MESSAGE")), "config.DEFAULT_COMMIT_MESSAGE")
+    emit_str(out, "DEFAULT_TAG_MESSAGE", cstr(top_assign(cfg, "DEFAULT_TAG_MESSAGE")), "config.DEFAULT_TAG_MESSAGE")
+
+
+EXTRA_GENERATORS.append(gen_vcs)
